@@ -1052,7 +1052,9 @@ EbErrorType picture_control_set_ctor(PictureControlSet *object_ptr, EbPtr object
         EB_CALLOC_ALIGNED_ARRAY(object_ptr->tpl_mvs, mem_size);
     }
     object_ptr->hash_table.p_lookup_table = NULL;
-    svt_av1_hash_table_create(&object_ptr->hash_table);
+    EbErrorType hash_err = svt_av1_hash_table_create(&object_ptr->hash_table);
+    if (hash_err != EB_ErrorNone)
+        return hash_err;
     EB_MALLOC_ALIGNED(object_ptr->rst_tmpbuf, RESTORATION_TMPBUF_SIZE);
     return EB_ErrorNone;
 }
